@@ -163,8 +163,12 @@ def rule_pairing(ctx, f):
         ctx.lost("C05-G-pair", "<StreamInfo<T> as Object>::from_primitive")
         return
     # the pairing loop may be written as `for (i, filter) in ..enumerate()` or as `.enumerate().map(|(i, filter)| ..)`
+    # ... or in a private helper that is handed the list and a closure looking the parameters up (`build_filters(&filters, |i| ..get(i).., r)`)
     sites = []
+    from inline import inlined
     for body in f.with_closures(b["id"]):
+        if body is b:
+            body = inlined(f, b)
         for bi, t in call_sites(body, lambda nm, t: last_seg(nm) == "from_kind_and_params"):
             sites.append((body, bi, t))
     ctx.floor("C05-G-pair", len(sites), 2, "from_kind_and_params call sites (filters, file filters)")
@@ -204,6 +208,37 @@ def rule_pairing(ctx, f):
                     idx_next.add(a[2])
             ok = bool(idx_next) and idx_next == nexts_name and not consts
             why = "index from next@%s, name from next@%s, constants %d" % (sorted(idx_next), sorted(nexts_name), len(consts))
+        if not gets:
+            # the parameters are produced by a closure called with the index: `params_at(i)` with `|i| match decode_params.get(i) {..}`
+            for a in fl.origins(par_l) if par_l is not None else []:
+                if not (a[0] == "call" and last_seg(a[1]) == "call" and len(a[3]["args"]) == 2):
+                    continue
+                cl = arg_local(a[3], 0)
+                cbs = [f.body(x[1]["closure"]) for x in (fl.origins(cl) if cl is not None else []) if x[0] == "agg" and x[1].get("k") == "closure"]
+                tl = arg_local(a[3], 1)
+                idx_next, consts = set(), []
+                for d in fl.defs.get(tl, []) if tl is not None else []:
+                    if d[0] == "assign" and d[2][0] == "aggregate" and d[2][1].get("k") == "tuple":
+                        for o in d[2][2]:
+                            ol = F.op_local(o)
+                            consts += [1] if ol is None else [x for x in fl.origins(ol, passthrough=()) if x[0] == "const"]
+                            idx_next |= {x[2] for x in (fl.origins(ol) if ol is not None else []) if x[0] == "call" and last_seg(x[1]) == "next"}
+                inner = bool(cbs)
+                for cb in cbs:
+                    if cb is None:
+                        inner = False
+                        continue
+                    cfl = Flow(cb)
+                    cg = [x for x in cfl.origins(0) if x[0] == "call" and last_seg(x[1]) == "get" and "slice" in x[1]]
+                    okg = bool(cg)
+                    for g in cg:
+                        il = arg_local(g[3], 1)
+                        ia = cfl.origins(il) if il is not None else []
+                        okg = okg and any(x[0] == "arg" and x[1] == 2 for x in ia) and not [x for x in ia if x[0] == "const"]
+                    inner = inner and okg
+                ok = inner and bool(idx_next) and idx_next == nexts_name and not consts
+                why = "closure called with the index from next@%s, name from next@%s, constants %d; the closure looks up at its argument: %s" % (
+                    sorted(idx_next), sorted(nexts_name), len(consts), inner)
         ctx.check(ok, "C05-G-pair", b["id"] + "#pair-%d" % k, "filter and decode parameters are not taken at the same index: " + why, t["span"],
                   detail="params = decode_params.get(i) with (i, filter) from one enumerate() step")
 
